@@ -28,6 +28,7 @@ import (
 	"time"
 
 	"github.com/arm-doe/sts"
+	"github.com/arm-doe/sts/client"
 	stslog "github.com/arm-doe/sts/log"
 	"github.com/arm-doe/sts/zzverif/vfs"
 )
@@ -273,6 +274,11 @@ func TestZZVerif(t *testing.T) {
 
 	if prop == "C19" {
 		zzC19(t, res, rng, work, tier)
+		res.Completed = true
+		return
+	}
+	if prop == "C11" {
+		zzC11(t, res, rng, work, tier)
 		res.Completed = true
 		return
 	}
@@ -1012,3 +1018,171 @@ func (f zzFile) GetTime() time.Time { return time.Unix(1700000000, 0) }
 func (f zzFile) GetMeta() []byte    { return nil }
 
 func regexpMatch(p, s string) (bool, error) { return regexp.MatchString(p, s) }
+
+
+// ---------------------------------------------------------------- C11 (wiring)
+
+type zzQFile struct {
+	name string
+	size int64
+	hash string
+	t    time.Time
+}
+
+func (f *zzQFile) GetPath() string    { return "/x/" + f.name }
+func (f *zzQFile) GetName() string    { return f.name }
+func (f *zzQFile) GetSize() int64     { return f.size }
+func (f *zzQFile) GetTime() time.Time { return f.t }
+func (f *zzQFile) GetMeta() []byte    { return nil }
+func (f *zzQFile) GetHash() string    { return f.hash }
+func (f *zzQFile) IsDone() bool       { return false }
+
+// zzC11: the chunk sizes the program itself wires into the sender's queue.  A clientApp is
+// built by its own init() from a generated source configuration (request size, tags with
+// and without a chunk size); plain and RESUMED files (the client's own resumed-file type)
+// are pushed into the queue it built and popped until it is empty.  Oracle: every chunk
+// is non-empty and no longer than the tag's chunk size - the request size when the tag has
+// none -, the chunks of a file tile exactly the bytes to send (the whole file, or the
+// missing ranges of a resumed one), and the queue drains.
+func zzC11(t *testing.T, res *zzResult, rng *rand.Rand, work, tier string) {
+	stslog.Init(filepath.Join(work, "messages"), false, nil, nil)
+	n := 40
+	if tier == "thorough" {
+		n = 1000
+	}
+	viol := func(idx int, clause, fp, detail string, sc any) {
+		if len(res.Violations) < 100 {
+			res.Violations = append(res.Violations, zzViolation{Clause: clause, Fingerprint: "C11/" + fp, Detail: detail, Scenario: sc, Index: idx})
+		}
+		res.Counters["violations_total"]++
+	}
+	for i := 0; i < n; i++ {
+		res.Evaluations++
+		bin := int64(64 << uint(rng.Intn(7))) // 64 B .. 4 KiB
+		chunkOf := map[string]int64{}
+		mk := func(pattern string) map[string]any {
+			m := map[string]any{"pattern": pattern, "priority": 1, "order": []string{"fifo", "none", "alpha"}[rng.Intn(3)], "method": "http"}
+			switch rng.Intn(3) {
+			case 0: // no chunk size: the request size applies
+				chunkOf[pattern] = bin
+			case 1:
+				cs := int64(16 << uint(rng.Intn(6)))
+				m["chunk-size"] = fmt.Sprintf("%dB", cs)
+				chunkOf[pattern] = cs
+			default:
+				cs := bin * int64(1+rng.Intn(3))
+				m["chunk-size"] = fmt.Sprintf("%dB", cs)
+				chunkOf[pattern] = cs
+			}
+			return m
+		}
+		tj := []map[string]any{mk("DEFAULT")}
+		if rng.Intn(2) == 0 {
+			tj = append(tj, mk(`^big/`))
+		}
+		src := map[string]any{"name": "s", "out-dir": filepath.Join(work, "out"), "log-dir": filepath.Join(work, "log"), "threads": 1,
+			"bin-size": fmt.Sprintf("%dB", bin), "target": map[string]any{"name": "t", "http-host": "127.0.0.1:1"}, "tags": tj}
+		b, _ := json.Marshal(src)
+		conf := &sts.SourceConf{}
+		if err := json.Unmarshal(b, conf); err != nil {
+			res.Inconclusive++
+			res.InconcNotes = append(res.InconcNotes, "configuration not accepted: "+err.Error())
+			continue
+		}
+		app := &clientApp{conf: conf, dirCache: filepath.Join(work, "cache")}
+		_ = os.MkdirAll(app.dirCache, 0o755)
+		if err := app.init(); err != nil {
+			res.Inconclusive++
+			res.InconcNotes = append(res.InconcNotes, "clientApp.init: "+err.Error())
+			continue
+		}
+		q := app.broker.Conf.Queue
+		type want struct {
+			ranges [][2]int64
+			chunk  int64
+		}
+		wants := map[string]*want{}
+		var batch []sts.Hashed
+		nf := 1 + rng.Intn(4)
+		for f := 0; f < nf; f++ {
+			name := fmt.Sprintf("%sf%02d.dat", []string{"", "big/", "g/"}[rng.Intn(3)], f)
+			size := int64(1 + rng.Intn(int(bin)*5))
+			qf := &zzQFile{name: name, size: size, hash: fmt.Sprintf("h%d", f), t: time.Unix(1700000000+int64(f), 0)}
+			tag := "DEFAULT"
+			if strings.HasPrefix(name, "big/") && len(tj) > 1 {
+				tag = `^big/`
+			}
+			w := &want{chunk: chunkOf[tag]}
+			if rng.Intn(2) == 0 {
+				// resumed: 1-3 missing ranges
+				var left []*sts.ByteRange
+				pos := int64(0)
+				for k := 0; k < 1+rng.Intn(3) && pos < size; k++ {
+					bg := pos + rng.Int63n(size-pos)
+					ln := 1 + rng.Int63n(size-bg)
+					left = append(left, &sts.ByteRange{Beg: bg, End: bg + ln})
+					w.ranges = append(w.ranges, [2]int64{bg, bg + ln})
+					pos = bg + ln + 1
+				}
+				batch = append(batch, client.ZZNewRecoverFile(qf, "", left))
+			} else {
+				w.ranges = [][2]int64{{0, size}}
+				batch = append(batch, qf)
+			}
+			wants[name] = w
+		}
+		q.Push(batch)
+		got := map[string][][2]int64{}
+		sc := map[string]any{"bin_size": bin, "tags": tj, "files": wants}
+		drained := false
+		for k := 0; k < 20000; k++ {
+			s := q.Pop()
+			if s == nil {
+				drained = true
+				break
+			}
+			off, ln := s.GetSlice()
+			res.Counters["chunks_popped"]++
+			w := wants[s.GetName()]
+			if w == nil {
+				continue
+			}
+			if ln < 1 {
+				viol(i, "chunk-nonempty", "wired-empty-chunk", fmt.Sprintf("the queue built by the program handed out an empty chunk of %s at %d (request size %d, tag chunk size %d)", s.GetName(), off, bin, w.chunk), sc)
+				break
+			}
+			if ln > w.chunk {
+				viol(i, "chunk-within-size", "wired-chunk-too-long", fmt.Sprintf("chunk [%d,%d) of %s is longer than the chunk size %d that applies (request size %d)", off, off+ln, s.GetName(), w.chunk, bin), sc)
+			}
+			got[s.GetName()] = append(got[s.GetName()], [2]int64{off, off + ln})
+		}
+		if !drained {
+			viol(i, "queue-drains", "wired-queue-never-empty", fmt.Sprintf("after 20000 pops the queue built by the program still hands out chunks (request size %d)", bin), sc)
+			continue
+		}
+		for name, w := range wants {
+			flat := [][2]int64{}
+			gs := got[name]
+			sort.Slice(gs, func(a, b int) bool { return gs[a][0] < gs[b][0] })
+			for _, g := range gs {
+				if len(flat) > 0 && flat[len(flat)-1][1] == g[0] {
+					flat[len(flat)-1][1] = g[1]
+				} else {
+					flat = append(flat, g)
+				}
+			}
+			wf := [][2]int64{}
+			for _, r := range w.ranges {
+				if len(wf) > 0 && wf[len(wf)-1][1] == r[0] {
+					wf[len(wf)-1][1] = r[1]
+				} else {
+					wf = append(wf, r)
+				}
+			}
+			if fmt.Sprint(flat) != fmt.Sprint(wf) {
+				viol(i, "exact-cover", "wired-cover", fmt.Sprintf("%s: chunks cover %v, to be sent %v", name, flat, wf), sc)
+			}
+		}
+		res.Nontrivial[fmt.Sprintf("%d|%v|%d", bin, chunkOf, nf)]++
+	}
+}
